@@ -48,10 +48,7 @@ FINDINGS = {
     "absent-left-int-divide-returns-zero": ('F_absent_left_zero "//"', [("//", "absent", "int"), ("//", "absent", "float")]),
     "absent-left-modulus-returns-zero": ('F_absent_left_zero "%"', [("%", "absent", "int"), ("%", "absent", "float")]),
     "absent-left-power-returns-zero": ('F_absent_left_zero "**"', [("**", "absent", "int"), ("**", "absent", "float")]),
-    "xor-collection-null-asymmetric": ("F_xor_collection_null", [("^", "array", "null"), ("^", "map", "null"), ("^", "null", "array"), ("^", "null", "map")]),
     "max-empty-beats-number": ("F_max_empty_number", _fp_max([("void", "int"), ("void", "float"), ("int", "void"), ("float", "void")])),
-    "max-error-null-returns-null": ("F_max_error_null", _fp_max([("error", "null"), ("null", "error")])),
-    "power-error-absent-returns-absent": ("F_pow_error_absent", [("**", "error", "absent"), ("**", "absent", "error")]),
 }
 FOOT = {cell: cls for cls, (_, cells) in FINDINGS.items() for cell in cells}
 # repaired in /repo (fix: 481d57d86): no longer excludable anywhere -- the theorems cover these cells unconditionally; a regression
@@ -59,6 +56,9 @@ FOOT = {cell: cls for cls, (_, cells) in FINDINGS.items() for cell in cells}
 REPAIRED = {
     "absent-left-dotminus-negates": [(".-", "absent", "int"), (".-", "absent", "float")],
     "empty-left-dottimes-negates": [(".*", "void", "int"), (".*", "void", "float")],
+    "xor-collection-null-asymmetric": [("^", "array", "null"), ("^", "map", "null"), ("^", "null", "array"), ("^", "null", "map")],
+    "max-error-null-returns-null": _fp_max([("error", "null"), ("null", "error")]),
+    "power-error-absent-returns-absent": [("**", "error", "absent"), ("**", "absent", "error")],
 }
 REPAIRED_FOOT = {cell: cls for cls, cells in REPAIRED.items() for cell in cells}
 
@@ -214,8 +214,6 @@ def refuted(t, cls):
     if cls.startswith("absent-left-") and cls.endswith("returns-zero"):
         op = cells[0][0]
         return t.has2(op, "absent", "int", "Int0") and t.has2(op, "absent", "float", "Float0") and not t.has2(op, "absent", "int", "Arg2")
-    if cls == "xor-collection-null-asymmetric":
-        return t.kinds2("^", "array", "null") != t.kinds2("^", "null", "array") or t.kinds2("^", "map", "null") != t.kinds2("^", "null", "map")
     if cls == "max-empty-beats-number":
         return any(t.has2(op, a, b, "Void") for op, a, b in cells)
     return any(not t.has2(op, a, b, "Error") for op, a, b in cells)
@@ -545,20 +543,29 @@ def run(ctx):
     ctx.sample({"cell": ["/", "absent", "int"], "observed": t.B[("/", "absent", "int")]["cls"], "examples": t.B[("/", "absent", "int")]["per"][:2]})
     ctx.sample({"cell": ["+", "absent", "int"], "observed": t.B[("+", "absent", "int")]["cls"], "examples": t.B[("+", "absent", "int")]["per"][:2]})
 
+    # ---- (C) absent through the DSL evaluator: regenerated table gen/Gen_AbsentDSL.v, rules re-proved in C08/DslRules.v
+    from checks import c08_dsl
+    dsl_obs = c08_dsl.regenerate(ctx, t)
+
     forbidden_gate(ctx, ["C08"])
-    ok, why = check_props(ctx, "C08/Props.v", ["C08/TableProofs.vo", "C08/AssignProofs.vo", "C08/Accumulate.vo", "C08/Harness.vo"])
+    ok, why = check_props(ctx, "C08/Props.v", ["C08/TableProofs.vo", "C08/DslRules.vo", "C08/AssignProofs.vo", "C08/Accumulate.vo", "C08/Harness.vo"])
 
     # ---- oracle on the implementation's own outputs: the rules of the property over the table
     fails = rule_failures(t)
     logical_bad = [(op, i, j, logical[op][i][j], doc[i][j]) for op, doc in (("&&", DOC_AND), ("||", DOC_OR)) for i in range(6) for j in range(6) if logical[op][i][j] != doc[i][j]]
     ctx.cov["rule_failures"] = len(fails)
     reported = report_rule_failures(ctx, t, fails)
+    dsl_fails = c08_dsl.rule_failures(dsl_obs, t)
+    ctx.cov["dsl_rule_failures"] = len(dsl_fails)
+    for f in dsl_fails[:12]:
+        reported += 1
+        ctx.violation(dict(f, rule="absent_in_dsl"))
     for op, i, j, got, want in logical_bad[:3]:
         reported += 1
         ctx.violation({"class": "unlisted:documented_logical_table:%s:%d:%d" % (op, i, j), "rule": "documented_logical_table",
                        "input": {"mlr": "mlr -n put 'end{print typeof((%s) %s (%s))}'" % (LOGICAL_OPERANDS[i], op, LOGICAL_OPERANDS[j])},
                        "observed": got, "expected": want, "theorem": "C08_documented_%s_table" % ("and" if op == "&&" else "or")})
-    if not ok and not fails and not logical_bad:
+    if not ok and not fails and not logical_bad and not dsl_fails:
         ctx.violation({"broken": why}, found_input=False)
     if not ok:
         return
